@@ -52,3 +52,9 @@ claim("C09", "exploration", "round-trip property-based testing of fragment mergi
 claim("C16", "exploration", "property-based testing of the functional-group matcher: renumbering metamorphic relation + differential against RDKit substructure search on explicit SMARTS + recomputed combinator",
       "Every atom of generated / corpus / ring-rich molecules x every configured pattern, group and anti-pattern structure: pattern_match compared both ways with an RDKit substructure reference, is_functional_group compared under atom renumbering and against the pattern/anti-pattern combinator. The tree-walk false positives in cyclic neighbourhoods are a listed known finding (K16); false positives elsewhere and all misses are violations.",
       TB + "; RDKit GetSubstructMatches is the reference for 'real occurrence'", "DESIGN.md 4/C16")
+claim("C10", "exploration", "property-based testing of MCSSearch.find against RDKit substructure matching + batch-vs-alone metamorphic relation; exhaustive enumeration of small selection tables for get_largest_condition",
+      "Generated batches of reaction dictionaries through MCSSearch.find (molecule multiset, pattern containment, id attribution, batch == alone, retained entry == maximum over a separate ensemble_mcs run) and ALL 1-row (2-row in thorough) tables of up to 3 conditions over a 10-letter alphabet through the selection step.",
+      TB + "; RDKit SMARTS matching is the reference for containment; timeouts make a case inconclusive", "DESIGN.md 4/C10")
+claim("C12", "fault_enumeration", "model-based testing over run/crash/rerun histories on a shared cache directory (reference = the same run with caching off) + exhaustive enumeration of every byte prefix of a cache file",
+      "Generated histories of runs (overlapping inputs, batch sizes, thresholds, column names), crash states of existing cache files (deleted, empty, truncated, leftover temp file, foreign JSON) and reruns, each completed run compared with its cache-off result; every byte prefix of the cache file of several batches is fed to CacheManager.load_cache and a stride of them end-to-end.",
+      TB + "; crash model = file absent / empty / byte prefix / leftover temp file (rename-based writes make other torn states unreachable)", "DESIGN.md 4/C12")
